@@ -18,10 +18,10 @@ package colgen
 
 import (
 	"bytes"
-	"strings"
 	"encoding/binary"
 	"fmt"
 	"math/rand"
+	"strings"
 
 	"github.com/ClickHouse/ch-go/proto"
 	"github.com/google/uuid"
